@@ -274,8 +274,10 @@ class Job:
         return value
 
     def lifted(self):
-        """call after the lifted run: records lift time"""
+        """call after the lifted run: records lift time. From here on (oracle, obligations) the AIG is built
+        without the encoder's semantic folding, so that every obligation reaches the solver as a real formula"""
         self.lift_s = time.time() - self.t0
+        E.dag.sim = None
 
     def call(self, fn, *args, replay=None, **kwargs):
         """run a lifted library function; an exception that escapes unconditionally (e.g. RecursionError,
